@@ -84,13 +84,34 @@ def init : State := { gangs := [], infos := [], ggMap := [], next := 0, fw := []
 
 /-- gang parameters carried by a PodGroup object or by a pod's annotations (raw tokens).
     policy: 0/1/2 as above, 3 = absent, 4 = illegal;  mode: 0 NonStrict, 1 Strict, 2 absent, 3 illegal;
-    group: the parsed groups annotation ([] = absent / unparsable). -/
+    gshape: the shape of the groups annotation — 0 absent, 1 the empty string, 2 `null`, 3 `[]`,
+    4 a JSON list of gang ids (`group`), 5 not JSON;  group: the ids of shape 4. -/
 structure Cfg where
   min    : Int
   policy : Nat
   mode   : Nat
   group  : List GangId
+  gshape : Nat := 4
 deriving Repr, DecidableEq
+
+/-- util.StringToGangGroupSlice (`none` = the Go nil slice): "" -> nil; `null` unmarshals to nil;
+    `[]` -> empty non-nil; a syntax error returns the empty non-nil slice made before Unmarshal
+    together with the error, which both callers only log. -/
+def parseGroups (shape : Nat) (group : List GangId) : Option (List GangId) :=
+  match shape with
+  | 0 => none
+  | 1 => none
+  | 2 => none
+  | 3 => some []
+  | 4 => some group
+  | _ => some []
+
+/-- tryInitByPodConfig / tryInitByPodGroup: `if len(groupSlice) == 0 { groupSlice = append(groupSlice, gang.Name) }`
+    (len, not a nil test: the empty non-nil slice also falls back to the gang itself) -/
+def groupOrSelf (self : GangId) : Option (List GangId) → List GangId
+  | none => [self]
+  | some [] => [self]
+  | some (x :: xs) => x :: xs
 
 structure Out where
   verdict  : Nat := 9        -- Permit: 0 Success, 1 Wait, 2 PodGroupNotFound; 9 = not a permit
@@ -165,7 +186,7 @@ def normStrict (m : Nat) : Bool := m != 0
 /-- the common part of tryInitByPodConfig / tryInitByPodGroup -/
 def applyCfg (g : Gang) (c : Cfg) (fromAnno : Bool) : Gang :=
   { g with min := c.min, policy := normPolicy c.policy, strict := normStrict c.mode,
-           group := sortNat (if c.group.isEmpty then [g.id] else c.group),
+           group := sortNat (groupOrSelf g.id (parseGroups c.gshape c.group)),
            fromAnno := fromAnno, init := true }
 
 /-! ### gang.go: the four child sets -/
